@@ -90,6 +90,9 @@ func genBatch(r *rand.Rand, mode string) (BatchCfg, *BatchScript) {
 		c.Items = c.C + r.Intn(3*c.C+8)
 		pFail = 0
 		c.Via = "builder"
+		if c.C > 2 && r.Intn(3) == 0 {
+			c.Procs = 2 // fewer processors than workers: the limit must still be fully usable
+		}
 		if r.Intn(2) == 0 {
 			// any c items may depend on each other, not only the first c
 			c.Barrier = r.Perm(c.Items)[:c.C]
